@@ -451,3 +451,115 @@ Theorem C11_file_wrapper_seekable : forall has_seekable file_seekable has_seek,
   file_wrapper_seekable has_seekable file_seekable has_seek = Ok (if has_seekable then file_seekable else has_seek).
 Proof. exact file_wrapper_seekable_spec. Qed.
 Print Assumptions C11_file_wrapper_seekable.
+
+(* ================================================================ third round: exact forms and tight guards *)
+(* is_resource_modified (regenerated) in closed form, for every input: no guard, so a deviation inside a class that
+   a _partial theorem leaves out still contradicts this statement *)
+Theorem C11_is_resource_modified_exact : forall pd r ifr ims inm im etag lm ign,
+  is_resource_modified pd r ifr ims inm im etag lm ign = irm_spec pd r ifr ims inm im etag lm ign.
+Proof. exact irm_correct. Qed.
+Print Assumptions C11_is_resource_modified_exact.
+
+(* make_conditional as a whole in specification vocabulary: the guard, then either the validator decision
+   (decide_spec: 412 / 304 / unchanged, with If-Match before If-None-Match before the dates) or the range answer *)
+Theorem C11_make_conditional_exact : forall pd env st0 etag lm acc cl,
+  make_conditional pd env st0 etag lm acc cl =
+  if cond_method env then
+    skip <- range_request_skipped pd env etag lm acc cl ;;
+    if skip then decide_spec pd env st0 etag lm
+    else
+      parsed <- parse_range_header (q_range env) ;;
+      match parsed with
+      | None => Ok (MC416 cl)
+      | Some r => match rfl_spec r cl, cl with
+                  | Some (Some s, Some e), Some L => served s e L acc
+                  | _, _ => Ok (MC416 cl)
+                  end
+      end
+  else Ok (MCResp st0 None).
+Proof. exact make_conditional_exact. Qed.
+Print Assumptions C11_make_conditional_exact.
+
+(* the If-Range decision for every request with If-Range and Range, known deviations included *)
+Theorem C11_if_range_exact : forall pd env etag lm v rg,
+  q_if_range env = Some v -> q_range env = Some rg ->
+  is_range_request_processable pd env etag lm = if_range_effective pd env etag lm.
+Proof. exact if_range_exact. Qed.
+Print Assumptions C11_if_range_exact.
+
+(* under the guard of C11_if_range_failed_partial the effective decision is the specified (lenient) comparison *)
+Theorem C11_if_range_effective_when_decides : forall pd env etag lm,
+  if_range_decides pd env etag = true -> q_if_range env <> None ->
+  if_range_effective pd env etag lm = Ok (if_range_matches false pd env etag lm).
+Proof. exact if_range_effective_when_decides. Qed.
+Print Assumptions C11_if_range_effective_when_decides.
+
+(* every conjunct of that guard is needed: four witnesses, each failing one conjunct only, If-Range not matching,
+   a 206 served *)
+Theorem C11_if_range_guard_needed :
+  (exists pd env etag lm p,
+     q_if_match env = None /\ q_if_modified_since env = None /\ q_if_none_match env <> None /\
+     if_range_matches false pd env etag lm = false /\
+     make_conditional pd env 200 etag lm ATrue (Some 4%Z) = Ok (MCResp 206 (Some p)))
+  /\ (exists pd env etag lm p,
+     q_if_none_match env = None /\ q_if_modified_since env = None /\ q_if_match env <> None /\
+     if_range_matches false pd env etag lm = false /\
+     make_conditional pd env 200 etag lm ATrue (Some 4%Z) = Ok (MCResp 206 (Some p)))
+  /\ (exists pd env etag lm p,
+     q_if_none_match env = None /\ q_if_match env = None /\ etag = None /\
+     ifr_etag (parse_if_range_header pd (q_if_range env)) <> None /\
+     if_range_matches false pd env etag lm = false /\
+     make_conditional pd env 200 etag lm ATrue (Some 4%Z) = Ok (MCResp 206 (Some p)))
+  /\ (exists pd env etag lm p,
+     q_if_none_match env = None /\ q_if_match env = None /\ q_if_range env = Some [] /\
+     if_range_matches false pd env etag lm = false /\
+     make_conditional pd env 200 etag lm ATrue (Some 4%Z) = Ok (MCResp 206 (Some p))).
+Proof. exact if_range_guard_needed. Qed.
+Print Assumptions C11_if_range_guard_needed.
+
+(* both conjuncts of the guard of C11_304_complete_partial are needed, each alone (C11_304_iff says nothing else is) *)
+Theorem C11_304_complete_guard_needed :
+  (exists pd env etag lm acc cl p,
+     cond_method env = true /\ validators_match pd env etag lm = Ok true /\
+     parse_etags (q_if_match env) = Ok (mk_etags [] [] false) /\
+     range_request_skipped pd env etag lm acc cl = Ok false /\
+     make_conditional pd env 200 etag lm acc cl = Ok (MCResp 206 (Some p)))
+  /\ (exists pd env etag lm acc cl im,
+     cond_method env = true /\ validators_match pd env etag lm = Ok true /\
+     range_request_skipped pd env etag lm acc cl = Ok true /\
+     parse_etags (q_if_match env) = Ok im /\ etags_truthy im = true /\
+     make_conditional pd env 200 etag lm acc cl = Ok (MCResp 200 None)).
+Proof. exact complete_304_guard_needed. Qed.
+Print Assumptions C11_304_complete_guard_needed.
+
+(* a 416 always carries Content-Range: bytes * / complete-length (the length is known and not zero there) *)
+Theorem C11_416_content_range : forall pd env st0 etag lm acc cl l,
+  make_conditional pd env st0 etag lm acc cl = Ok (MC416 l) ->
+  exists L, l = Some L /\ L <> 0%Z /\ content_range_416 l = Some (s_bytes ++ SP :: STAR :: SLASH :: dec_Z L).
+Proof. exact c416_content_range. Qed.
+Print Assumptions C11_416_content_range.
+
+(* what Response.get_wsgi_headers lets through (regenerated _entity_headers / allowed tables, stripping statement
+   pinned): on 304 Content-Length, Content-Type, Content-Range, Content-Encoding, Content-Language, Content-MD5,
+   Last-Modified and Allow go; ETag, Date, Expires, Content-Location, Cache-Control, Vary, Accept-Ranges stay;
+   on any status from 200 on other than 204 and 304 nothing is stripped *)
+Theorem C11_304_headers :
+  forallb (fun n => negb (wsgi_header_kept 304 n))
+    [hn [67; 111; 110; 116; 101; 110; 116; 45; 76; 101; 110; 103; 116; 104];
+     hn [67; 111; 110; 116; 101; 110; 116; 45; 84; 121; 112; 101];
+     hn [67; 111; 110; 116; 101; 110; 116; 45; 82; 97; 110; 103; 101];
+     hn [67; 111; 110; 116; 101; 110; 116; 45; 69; 110; 99; 111; 100; 105; 110; 103];
+     hn [67; 111; 110; 116; 101; 110; 116; 45; 76; 97; 110; 103; 117; 97; 103; 101];
+     hn [67; 111; 110; 116; 101; 110; 116; 45; 77; 68; 53];
+     hn [76; 97; 115; 116; 45; 77; 111; 100; 105; 102; 105; 101; 100];
+     hn [65; 108; 108; 111; 119]] = true
+  /\ forallb (wsgi_header_kept 304)
+    [hn [69; 84; 97; 103]; hn [68; 97; 116; 101]; hn [69; 120; 112; 105; 114; 101; 115];
+     hn [67; 111; 110; 116; 101; 110; 116; 45; 76; 111; 99; 97; 116; 105; 111; 110];
+     hn [67; 97; 99; 104; 101; 45; 67; 111; 110; 116; 114; 111; 108]; hn [86; 97; 114; 121];
+     hn [65; 99; 99; 101; 112; 116; 45; 82; 97; 110; 103; 101; 115]] = true
+  /\ (forall st n, st <> 304 -> 200 <= st -> st <> 204 -> wsgi_header_kept st n = true)
+  /\ (forall n, wsgi_header_kept 304 n = true <->
+        (existsb (list_eqb (lower n)) entity_headers = false \/ existsb (list_eqb (lower n)) entity_allowed = true)).
+Proof. exact headers_304. Qed.
+Print Assumptions C11_304_headers.
